@@ -489,6 +489,10 @@ def denoted(parts, n):
     Coordinates beyond n are read modulo n (CircularRecord rotation pushes locations past the end)."""
     out = []
     for (a, b, s) in parts:
+        if a == b:
+            # a zero-length part (GenBank `a^a+1`) denotes the boundary in front of nucleotide a
+            out.append((a % n, s, "^"))
+            continue
         idx = list(range(a, b))
         if s == -1:
             idx.reverse()
@@ -498,7 +502,7 @@ def denoted(parts, n):
 
 def rotate_denoted(den, n, k):
     """positions after `>> k`."""
-    return [((p + k) % n, s) for p, s in den]
+    return [(((d[0] + k) % n, d[1]) if len(d) == 2 else ((d[0] + k) % n, d[1], "^")) for d in den]
 
 
 def revcomp_denoted(den, n):
@@ -506,7 +510,7 @@ def revcomp_denoted(den, n):
     The *reading order* of the denoted nucleotides is preserved (the feature text is unchanged
     when extracted strand-aware)."""
     flip = {1: -1, -1: 1, 0: 0, None: None}
-    return [((n - 1 - p) % n, flip[s]) for p, s in den]
+    return [(((n - 1 - d[0]) % n, flip[d[1]]) if len(d) == 2 else ((n - d[0]) % n, flip[d[1]], "^")) for d in den]
 
 
 # ----------------------------------------------------------------------------------------
